@@ -259,7 +259,24 @@ func (c *provCtx) visit(v ssa.Value) {
 	case *ssa.TypeAssert:
 		c.visit(x.X)
 	case *ssa.Extract:
-		c.visitCall(x.Tuple, x.Index)
+		switch t := x.Tuple.(type) {
+		case *ssa.Lookup:
+			if x.Index == 0 {
+				c.visit(t.X)
+			} else {
+				c.root(Root{Kind: ROther, Val: x})
+			}
+		case *ssa.TypeAssert:
+			if x.Index == 0 {
+				c.visit(t.X)
+			} else {
+				c.root(Root{Kind: ROther, Val: x})
+			}
+		case *ssa.UnOp: // channel receive with comma-ok
+			c.visit(t.X)
+		default:
+			c.visitCall(x.Tuple, x.Index)
+		}
 	case *ssa.Slice:
 		c.visit(x.X)
 	case *ssa.SliceToArrayPointer:
